@@ -137,7 +137,11 @@ func Merges(scripts []Script, reduce bool, visit func(h []Step)) {
 	full := make([][]string, n)
 	total := 0
 	for i, s := range scripts {
-		full[i] = append([]string{"begin"}, s...)
+		if len(s) > 0 && strings.HasPrefix(s[0], "begin") {
+			full[i] = s // the script names its own begin op (beginro)
+		} else {
+			full[i] = append([]string{"begin"}, s...)
+		}
 		total += len(full[i])
 	}
 	pos := make([]int, n)
